@@ -1327,6 +1327,136 @@ def regression_cases():
     return out
 
 
+# ---------------------------------------------------------------------------------------------- op count reached through CHECKMULTISIG
+def _ms_opcount_layout(blocks, total, sec_f):
+    """script `NOP*k  (m <keys> n CHECKMULTISIG DROP)*  1` whose executed op count is exactly `total` (k NOPs, every block counts
+    1 + n + 1); dummy and signatures come from the stack.  Returns (script, [key indices per block]) or None when total is too small."""
+    fixed = sum(1 + n + 1 for _, n in blocks)
+    k = total - fixed
+    if k < 0:
+        return None
+    body, keyidx = bytearray(b"\x61" * k), []
+    for bi, (m, n) in enumerate(blocks):
+        idx = [(bi + j) % 3 for j in range(n)]
+        keyidx.append(idx)
+        body += push_int(m) + b"".join(push(sec_f(i)) for i in idx) + push_int(n) + bytes([OP["CHECKMULTISIG"], OP["DROP"]])
+    return bytes(body) + b"\x51", keyidx
+
+
+def _ms_opcount_stack(blocks, keyidx, sigkind, sign_f, garbage_f, script, pos_f):
+    """stack (bottom first): the items of the last block lowest; per block: dummy, then m signatures in key order.
+    sigkind: match | wrongcode (a real signature of the right key over another script) | garbage (well-formed DER, random r and s)"""
+    per_block = []
+    for (m, n), idx in zip(blocks, keyidx):
+        chosen = pos_f(m, n)
+        sigs = []
+        for j in chosen:
+            if sigkind == "match":
+                sigs.append(sign_f(idx[j], script))
+            elif sigkind == "wrongcode":
+                sigs.append(sign_f(idx[j], script + b"\x61"))
+            else:
+                sigs.append(garbage_f())
+        per_block.append([b""] + sigs)
+    out = []
+    for items in reversed(per_block):
+        out += items
+    return out
+
+
+MS_OPCOUNT_BLOCKS = [[(1, 1)], [(1, 3)], [(2, 3)], [(1, 20)], [(3, 20)], [(1, 20)] * 9, [(2, 20)] * 4 + [(1, 3)] * 2, [(1, 15), (2, 15), (1, 1)]]
+
+
+def ms_opcount_cases(out, vm_emit, rng=None, n_random=0):
+    """op-count boundary (199..203 executed ops) where the count is reached THROUGH CHECKMULTISIG key counts with m >= 1 and parsable
+    signatures: matching, real-but-not-matching, well-formed DER garbage; bare evaluation (both sigversions), P2SH, P2WSH; with and
+    without NULLFAIL.  Emitted for the spec stream (Case objects into `out`) and for the model stream (`vm_emit(op line)`)."""
+    from props import c03m_gen as g, c03m_gensig as gs
+    W, P = F["WITNESS"], F["P2SH"]
+    ctx = S.fmt_ctx(amount=1000)
+    det = rng is None
+    grng = lib.random.Random("C03/ms-opcount") if det else rng
+
+    def garbage():
+        return der_sig(grng.getrandbits(255) + 1, grng.getrandbits(253) + 1) + b"\x01"
+
+    def first_pos(m, n):
+        return list(range(m))
+
+    def last_pos(m, n):
+        return list(range(n - m, n))
+
+    def rnd_pos(m, n):
+        return sorted(grng.sample(range(n), m))
+
+    def plans():
+        if det:
+            wrappers, fls = ("eval0", "eval1", "p2wsh", "p2sh"), (0, F["NULLFAIL"])
+            i = 0
+            for bi, blocks in enumerate(MS_OPCOUNT_BLOCKS):
+                for sigkind in ("match", "wrongcode", "garbage"):
+                    pos = last_pos if sigkind == "match" and bi % 2 else first_pos
+                    for total in (199, 200, 201, 202, 203):
+                        # one wrapper and flag set in rotation for every total ...
+                        i += 1
+                        w = wrappers[i % 4]
+                        yield blocks, total, sigkind, fls[(i // 4) % 2], ("eval0" if w == "p2sh" and bi > 2 else w), pos
+                        # ... and every wrapper right at the limit for the small shapes
+                        if total in (201, 202) and bi < 4:
+                            for wi, w2 in enumerate(wrappers):
+                                if w2 != w and not (w2 == "p2sh" and bi > 2):
+                                    yield blocks, total, sigkind, fls[(i + wi) % 2], w2, pos
+        else:
+            for _ in range(n_random):
+                nb = grng.choice([1, 1, 2, 3, 5, 9])
+                blocks = []
+                for _b in range(nb):
+                    n = grng.choice([1, 2, 3, 5, 15, 19, 20])
+                    blocks.append((grng.randint(1, min(n, 3)), n))
+                fl = grng.choice([0, F["NULLFAIL"], F["NULLFAIL"] | F["NULLDUMMY"] | F["STRICTENC"] | F["DERSIG"], F["STRICTENC"], F["LOW_S"]])
+                yield (blocks, grng.choice([150, 198, 199, 200, 201, 202, 203, 204, 220]), grng.choice(["match", "match", "wrongcode", "garbage"]), fl,
+                       grng.choice(["eval0", "eval1", "p2wsh", "p2sh", "p2sh-p2wsh"]), rnd_pos)
+
+    for blocks, total, sigkind, fl, wrapper, pos_f in plans():
+        # ---- spec stream
+        lay = _ms_opcount_layout(blocks, total, lambda i: sec(i, "c"))
+        if lay is None:
+            continue
+        script, keyidx = lay
+        if len(script) > 10000 or (wrapper == "p2sh" and len(script) > 520):
+            continue
+        sv = "1" if wrapper in ("eval1", "p2wsh", "p2sh-p2wsh") else "0"
+        if wrapper.startswith("eval"):
+            base = Case("eval", fl, (script, []), ctx, sv)
+        else:
+            base = wrap(None, wrapper, script, [], fl | P | W, ctx)
+        info = base.txinfo()
+        stack = _ms_opcount_stack(blocks, keyidx, sigkind, lambda ki, code: sign(info, ki, code, 1, sv, high_s=False), garbage, script, pos_f)
+        if wrapper.startswith("eval"):
+            c = Case("eval", fl, (script, stack), ctx, sv)
+        else:
+            c = wrap(None, wrapper, script, stack, fl | P | W, ctx)
+        c.tag = "ms-opcount-" + wrapper
+        out.append(c)
+        # ---- model stream (its own transaction, keys and signatures)
+        wit = sv == "1"
+        lay2 = _ms_opcount_layout(blocks, total, lambda i: gs.sec(i, "c"))
+        script2, keyidx2 = lay2
+        stack2 = _ms_opcount_stack(blocks, keyidx2, sigkind, lambda ki, code: gs.sign(ki, code, wit), garbage, script2, pos_f)
+        sigs2 = [x for x in stack2 if x]
+        pubs2 = sorted({gs.sec(i, "c") for idx in keyidx2 for i in idx})
+        tbl = gs.table(sorted(set(sigs2)), pubs2, [script2], wit, g.CTX0) if sigkind == "match" else []
+        if wrapper.startswith("eval"):
+            vm_emit(g.ev(fl, script2, stack2, wit=int(wit), table=tbl))
+        elif wrapper == "p2wsh":
+            vm_emit(g.vf(fl | P | W, b"", sc(0, push(sha256(script2))), stack2 + [script2], g.CTX0, tbl))
+        elif wrapper == "p2sh":
+            vm_emit(g.vf(fl | P | W, pushes(stack2) + push_min(script2), sc("HASH160", push(h160(script2)), "EQUAL"), [], g.CTX0, tbl))
+        else:
+            redeem = sc(0, push(sha256(script2)))
+            vm_emit(g.vf(fl | P | W, push(redeem), sc("HASH160", push(h160(redeem)), "EQUAL"), stack2 + [script2], g.CTX0, tbl))
+
+
 # ---------------------------------------------------------------------------------------------- anchored line coverage
 ANCHORS = ["pycoin/vm/VM.py", "pycoin/vm/ConditionalStack.py", "pycoin/vm/ScriptStreamer.py", "pycoin/coins/bitcoin/VM.py",
            "pycoin/coins/bitcoin/make_instruction_lookup.py", "pycoin/coins/bitcoin/ScriptStreamer.py", "pycoin/coins/bitcoin/SolutionChecker.py",
@@ -1433,6 +1563,9 @@ def gen(ctx, emit):
     table_cases(cases, ctx.thorough)
     pipeline_table(cases, ctx.thorough)
     sig_table(cases, ctx.thorough)
+    vm_emit = lambda op: emit(op, "vm:ms-opcount")
+    ms_opcount_cases(cases, vm_emit)
+    ms_opcount_cases(cases, vm_emit, rng, ctx.n(40, 1500))
     _emit_cases(cases, emit, ctx)
 
     def batch(n, f):
